@@ -346,7 +346,7 @@ HeaderProtection_remove(HeaderProtectionObject *self, PyObject *args)
         pn_truncated = self->buffer[pn_offset + i] | (pn_truncated << 8);
     }
 
-    return Py_BuildValue("y#i", self->buffer, pn_offset + pn_length, pn_truncated);
+    return Py_BuildValue("y#I", self->buffer, pn_offset + pn_length, pn_truncated);
 }
 
 static PyMethodDef HeaderProtection_methods[] = {
